@@ -12,12 +12,12 @@ META = {
                   "counters and last error, with one action per critical section of lib.rs. Stage A: TLC checks the INTENDED machine "
                   "(Dev = {}) exhaustively in small scope (quick: 2 threads x 2 calls over the lock-relevant functions and 1 thread x 2 calls over all 23 call kinds; "
                   "thorough adds 1 x 3, 3 threads x 1 call, and 2 x 2 over all functions; handles range over NULL / valid / closed / other-table / never-issued): deadlock freedom (TLC deadlock check), "
-                  "no wait cycle, CloseInvalidatesOwn, cursor in 0..len, unique ids; and checks that each named deviation of the code as "
-                  "written (CloseSplit, NoFindPurge, FindLate, FindNextNested, VerifyRelock, ProbeForever, HasFileStale) yields a "
-                  "counterexample. Stage B: TLC emits every single call x handle class x buffer/offset class after a fixed setup history, "
+                  "no wait cycle, CloseInvalidatesOwn, cursor in 0..len, unique ids; and checks that each named deviation (the code before each fix commit: CloseSplit, "
+                  "NoFindPurge, FindLate, FindNextNested, VerifyRelock, ProbeForever, HasFileStale; and the lock-order mutant CloseFileNested) "
+                  "is refuted with a counterexample. Stage B: TLC emits every single call x handle class x buffer/offset class after a fixed setup history, "
                   "sampled pairs, simulated single-thread histories (<= 5 calls) and 2-thread programs, plus the counterexample schedules. "
                   "Stage C: the real extern \"C\" functions are driven with canary-guarded buffers in a child process (hang / abort = data). "
-                  "Stage D: TLC searches, for every recorded Inv/Ret history, an execution of the intended machine that explains it "
+                  "Stage D: TLC searches, for every recorded Inv/Ret history, an execution of the machine (Dev = {}) that explains it "
                   "(linearisation search); contents, sizes, names, existence are compared with what the Rust API reported.",
     "level_note": "No memory-safety proof: canaries, crash isolation and the watchdog are testing aids. Multi-thread schedules are only "
                   "steered (start order, an SFileEnumFiles-callback gate on ARCHIVES; exact replay needs fixes/C19-hook.patch). File contents "
@@ -30,7 +30,7 @@ META = {
     "disabled": False,
 }
 
-AS_CODED_ONLY = ("M_CA_PurgeFiles_Split", "M_CA_Remove_Split", "M_FF_Fill_Late")
+AS_CODED_ONLY = ("M_CA_PurgeFiles_Split", "M_CA_Remove_Split", "M_FF_Fill_Late", "M_CF_Acquire", "M_CF_Remove")   # deviation-only actions
 # single-lock functions left out of the quick 2-/3-thread configurations (they are covered by the 1-thread one)
 LIGHT = ("M_EnumFiles", "M_ExtractFile", "M_FlushArchive", "M_GetArchiveName", "M_GetFileName", "M_GetFileSize", "M_HasFile",
          "M_RemoveFile", "M_RenameFile", "M_SetFilePointer", "M_VerifyFile", "M_CloseFile", "M_GI_File", "M_GI_Archive", "M_FindClose")
@@ -43,10 +43,12 @@ DEVS = {
     "FindNextNested": "NoWaitCycle",
     "ProbeForever": "NoHang",
     "HasFileStale": "ExistenceAgrees",
+    "CloseFileNested": "NoWaitCycle",      # lock-order mutant (selftest/C19/mutant-6.diff): FILES -> ARCH against ARCH -> FILES
 }
 # actions of the as-written machine that start with a lock acquisition (= one verif_sync point each)
 NO_SYNC = {"MCInvoke", "M_OA_Open", "M_CA_Null", "M_OF_Null", "M_VA_Null", "M_FF_Null", "M_FN_Null", "Terminated"}
 ARCH_FIRST = {"M_OF_Lookup", "M_CA_Remove_Split", "M_CA_Remove", "M_FF_List", "M_VA_Begin", "M_FN_Fill", "M_HasFile", "M_AddFile"}
+LATE_FIRST = {"M_CF_Acquire"}     # threads that must reach their first lock before the ARCHIVES gate opens
 
 
 def _dev_run(ctx, dev, expect):
